@@ -1,7 +1,7 @@
 (** Extraction of the C17 size/index model (ExtrOcamlBasic only; numbers stay Coq's). *)
 From Coq Require Import Extraction ExtrOcamlBasic.
 From Coq Require Import List ZArith QArith Qcanon.
-From Inovesa Require Import Base.FieldKit Base.Float32 Model.Kick Model.Bounds.
+From Inovesa Require Import Base.FieldKit Base.Float32 Model.Kick Model.Bounds Model.ScalingOps Gen.Gen_ScalingZ.
 
 Extraction Language OCaml.
 
@@ -12,6 +12,6 @@ Definition sm_pinned_defined (n : Z) (o : Qc) : bool := sm_defined n o.
 
 Extraction "model_bounds.ml"
   Q2Qc this
-  upper_power_of_two sizes_list sizes_pinned_list fp_guard bucket_numbers pad_list pad_ok pad_max_last
+  upper_power_of_two sizes_list sizes_pinned_list gen_sizes_list fp_guard bucket_numbers pad_list pad_ok pad_max_last
   fp_events_list fp_table fp_all_ok fp_access_ok
   f2u_code kick_src_code sm_index_code sm_pinned_defined imp_sum_reads imp_sum_ok track_ok fptrack1_row conv_code.
